@@ -18,7 +18,7 @@ pub struct Case {
 
 pub fn gen_case(t: &mut Tape, tier: Tier) -> Option<Case> {
     let mo = if t.chance(0.3) { 1.0 / 64.0 } else { 0.15 };
-    let g = gen::gen_phys_graph(t, tier.pick(8, 9), 5, mo, 6)?;
+    let g = gen::gen_phys_graph(t, tier.pick(8, 9), 8, mo, 6)?;
     let (free, masses) = if t.chance(0.2) { gen::gen_kin_data_special(t, &g) } else { gen::gen_kin_data(t, &g) };
     let kin = gen::gen_routing(t, &g, &free, &masses, tier.pick(4, 6));
     let kin2 = gen::gen_routing(t, &g, &free, &masses, tier.pick(4, 6));
@@ -51,7 +51,7 @@ pub fn assert_v(c: &Phys, ev: &Eval, ctx: &mut Ctx) -> Result<bool, Failure> {
         ctx.label("excluded:out-of-range");
         return Ok(false);
     }
-    if ev.tau_v > 1e-6 {
+    if ev.tau_v > 1e-3 {
         ctx.label("excluded:ill-conditioned");
         return Ok(false);
     }
